@@ -1,18 +1,22 @@
 #!/bin/bash
 # usage: tools/benign_eval.sh <patch.diff> <property>...
-# Applies a change that is claimed to PRESERVE the properties to /repo, confirms that it builds and that the
-# repository's tests pass, runs the quick checks and reports QUIET / ALARM per property. Never leaves /repo modified.
+# Applies a change that is claimed to PRESERVE the properties to a scratch worktree of /repo's HEAD, confirms that it
+# builds and that the repository's tests pass, runs the quick checks against the copy (VERIF_REPO) and reports
+# QUIET / ALARM per property. /repo itself is never modified, no evidence is written.
 set -u
 patch="$(readlink -f "$1")"; shift
-cd /repo || exit 2
-if [ -n "$(git status --porcelain)" ]; then echo "repo not clean"; exit 2; fi
+wt=$(mktemp -d /tmp/verif-ben-XXXXXX)
+rmdir "$wt"
+git -C /repo worktree add -q --detach "$wt" HEAD || exit 2
+trap 'git -C /repo worktree remove --force "$wt" >/dev/null 2>&1; rm -rf "$wt" "/verif/.work/alt-$(printf %s "$wt" | sha1sum | cut -c1-10)"; git -C /repo worktree prune' EXIT
+cd "$wt" || exit 2
 if ! git apply "$patch"; then echo "NOAPPLY $patch"; exit 2; fi
-trap 'git -C /repo checkout -q -- . ; git -C /repo clean -fdq' EXIT
 export GOFLAGS=-mod=mod GOPROXY=off GOSUMDB=off GOTOOLCHAIN=local
-if ! go build ./... 2>/tmp/benign-build.log || ! go build -tags verif ./... 2>>/tmp/benign-build.log; then echo "NOBUILD $patch"; head -5 /tmp/benign-build.log; exit 2; fi
-if ! go test -vet=off -count=1 ./... >/tmp/benign-suite.log 2>&1; then echo "SUITE-FAILS $patch"; grep -m3 FAIL /tmp/benign-suite.log; exit 2; fi
+if ! go build ./... 2>"$wt.log" || ! go build -tags verif ./... 2>>"$wt.log"; then echo "NOBUILD $patch"; head -5 "$wt.log"; rm -f "$wt.log"; exit 2; fi
+if ! go test -vet=off -count=1 ./... >"$wt.log" 2>&1; then echo "SUITE-FAILS $patch"; grep -m3 FAIL "$wt.log"; rm -f "$wt.log"; exit 2; fi
+rm -f "$wt.log"
 for p in "$@"; do
-  out=$(cd /verif && VERIF_NO_EVIDENCE=1 VERIF_REPLAY_DIR=/tmp/verif-benign-replays ./check "$p" quick 2>&1)
+  out=$(cd /verif && VERIF_REPO="$wt" VERIF_NO_EVIDENCE=1 VERIF_REPLAY_DIR=/tmp/verif-benign-replays ./check "$p" quick 2>&1)
   rc=$?
   if [ $rc -eq 1 ]; then echo "ALARM    $p on $patch: $(echo "$out" | grep -m1 'check=' | cut -c1-300)";
   elif [ $rc -eq 0 ]; then echo "QUIET    $p on $patch";
